@@ -7,6 +7,10 @@
      LRDIFF ref=... lr=...                 the pipeline as generated (flex token names, bison's table run
                                            by the yacc skeleton model, grammar actions: run_yacc_string)
                                            disagrees with lexer + reference parser + denotation
+     GENDIFF hand-lexer=... generated-lexer=...   the pipeline over the scanner GENERATED from tokenizer.l
+                                           (run_gen_string) disagrees with the one over the hand-written
+                                           scanner model (never expected: theorem C11_generated_lexer_agrees)
+   With the argument "lex": hex-encoded inputs, see [lex_mode] below.
    Coefficients are printed like GMP prints canonical mpq: "n" or "n/d". *)
 open Inline
 
@@ -41,11 +45,55 @@ let show cs =
                            Buffer.add_char b ' '; Buffer.add_string b (q_str i)) cs;
   Buffer.contents b
 
-let () =
+(* ---- the scanner generated from tokenizer.l *)
+let hex_of_chars (cs : char list) : string =
+  String.concat "" (List.map (fun c -> Printf.sprintf "%02x" (Char.code c)) cs)
+let unhex (s : string) : string =
+  String.init (String.length s / 2) (fun i -> Char.chr (int_of_string ("0x" ^ String.sub s (2 * i) 2)))
+
+let raw_line (s : string) : string =
+  match raw_tokens_string s with
+  | None -> "STUCK"
+  | Some rts ->
+    let toks = List.filter_map (fun rt -> match rt with
+        | RTok (nm, _, text) -> Some (nm ^ ":" ^ hex_of_chars text)
+        | RChr c -> Some ("CHR:" ^ hex_of_chars [c])
+        | REcho _ -> None
+        | RBad w -> Some ("BAD:" ^ w)) rts in
+    let echo = String.concat "" (List.filter_map (fun rt -> match rt with REcho t -> Some (hex_of_chars t) | _ -> None) rts) in
+    "TOKENS" ^ String.concat "" (List.map (fun x -> " " ^ x) toks) ^ " | ECHO " ^ echo
+
+(* mode "lex": hex-encoded inputs (newlines and bytes >= 128 allowed) ->
+     TOKENS <NAME:hex>... | ECHO <hex> | PARSE <OK ...|ERR> | HAND <same|diff> | LIT <ok|diff> <number of literals>
+   tokens and echo of the generated scanner, the result of the pipeline over it (run_gen), and whether the
+   hand-written scanner model delivers the same token list to the parser (glex = ylex); LIT: for every RATIONAL /
+   FLOATING_POINT lexeme, whether the payload of the model equals what the model of the C conversion chain
+   (Monomial::Monomial (const char *, long)) computes from the text (literal_consistent) *)
+let lex_mode () =
+  try
+    while true do
+      let line = unhex (input_line stdin) in
+      let g = match run_gen_string line with None -> "ERR" | Some y -> "OK " ^ show y in
+      let hand = if glex line = ylex line then "same" else "diff" in
+      let lits = match raw_tokens_string line with
+        | None -> []
+        | Some rts -> List.filter_map (fun rt -> match rt with
+            | RTok (nm, _, text) when nm = "RATIONAL" || nm = "FLOATING_POINT" -> Some text | _ -> None) rts in
+      let litok = List.for_all literal_consistent lits in
+      print_string (raw_line line); print_string " | PARSE "; print_string g;
+      print_string " | HAND "; print_string hand;
+      print_string (if litok then " | LIT ok " else " | LIT diff "); print_string (string_of_int (List.length lits)); print_char '\n'
+    done
+  with End_of_file -> ()
+
+let text_mode () =
   try
     while true do
       let line = input_line stdin in
       let lr = match run_yacc_string line with None -> "ERR" | Some y -> "OK " ^ show y in
+      let gen = match run_gen_string line with None -> "ERR" | Some y -> "OK " ^ show y in
+      if gen <> lr then (print_string "GENDIFF hand-lexer="; print_string lr; print_string " generated-lexer="; print_string gen; print_char '\n')
+      else
       (match run_string line with
        | None ->
          if lr = "ERR" then print_string "ERR\n"
@@ -57,3 +105,6 @@ let () =
          else (print_string "OK "; print_string sa; print_char '\n'))
     done
   with End_of_file -> ()
+
+let () =
+  if Array.length Sys.argv > 1 && Sys.argv.(1) = "lex" then lex_mode () else text_mode ()
